@@ -291,6 +291,25 @@ func registerSDK2(P *Program) {
 		}
 	}
 	P.reg("github.com/cosmos/cosmos-sdk/types/msgservice.RegisterMsgServiceDesc", nop)
+	for _, pk := range []string{"github.com/cosmos/gogoproto/proto", "github.com/golang/protobuf/proto", "github.com/gogo/protobuf/proto"} {
+		P.reg(pk+".MessageName", func(it *Interp, a []Value) Value {
+			iv, ok := a[0].(*IfaceV)
+			if !ok || iv == nil {
+				return ""
+			}
+			if n, ok := it.P.ProtoNames[iv.T.String()]; ok {
+				return n
+			}
+			panic(unsupported("proto.MessageName of unregistered type " + iv.T.String()))
+		})
+		P.reg(pk+".Marshal", func(it *Interp, a []Value) Value {
+			p, k := it.msgPtr(a[0])
+			if p == nil {
+				return Tuple{&SliceV{}, (*ErrV)(nil)}
+			}
+			return Tuple{&BlobV{Kind: "proto:" + k, V: it.deepClone(it.load(p), map[*Cell]*Cell{})}, (*ErrV)(nil)}
+		})
+	}
 	registerRegexp(P)
 	const pt = "github.com/cosmos/cosmos-sdk/x/params/types"
 	P.reg("("+pt+".KeyTable).RegisterParamSet", func(it *Interp, a []Value) Value { return a[0] })
